@@ -14,6 +14,7 @@ func init() {
 			"consistency of sizes inside the LZMA2 chunk layer for check-less streams.",
 		run: func(c *Ctx, r *Report) {
 			ruleXZReaderChecks(c, r, "")
+			ruleBlockEnd(c, r, "")
 			ruleLzmaFilterCodec(c, r, "")
 			ruleCheckIDs(c, r, "")
 			rulePadLen(c, r, "")
